@@ -166,3 +166,11 @@ def throw_rule(kindmap, relpath):
         return "".join(out), n
 
     return apply
+
+
+def nondet_bools(decl):
+    """harness declarations: `bool a, b;` / `const bool a;` -> initialised with verif_nondet_bool()"""
+    def f(mm):
+        names = [n.strip() for n in mm.group(2).split(",")]
+        return "bool " + ", ".join("%s = verif_nondet_bool()" % n for n in names) + ";"
+    return re.sub(r"\b(const\s+)?bool\s+([\w\s,]+);", f, decl)
